@@ -450,6 +450,123 @@ impl Sweep for Shapes {
     }
 }
 
+/// every reply of up to n symbols (multi-byte characters, commas, quotes,
+/// blanks, number parts) to INPUT statements with one to three variables, and
+/// as the key returned by INKEY$
+struct Replies {
+    n: usize,
+}
+
+const REPLY_ALPHA: [&str; 10] = ["a", "é", "日", ",", "\"", " ", "1", "-", ".", "&"];
+const REPLY_PROGS: [&str; 5] = ["10 INPUT A$,B$", "10 INPUT A,B$,C", "10 INPUT \"p\";A$,B$,C$", "10 INPUT A$", "10 INPUT A%,B#"];
+
+impl Sweep for Replies {
+    fn name(&self) -> String {
+        format!("input-replies-len-{}", self.n)
+    }
+    fn shards(&self) -> usize {
+        REPLY_ALPHA.len()
+    }
+    fn crash_is_verdict(&self) -> bool {
+        true
+    }
+    fn run_shard(&self, shard: usize, ctx: &mut Ctx) {
+        let a = REPLY_ALPHA;
+        for len in 1..=self.n {
+            for idx in 0..a.len().pow(len as u32 - 1) {
+                let mut reply = String::from(a[shard]);
+                let mut x = idx;
+                for _ in 1..len {
+                    reply.push_str(a[x % a.len()]);
+                    x /= a.len();
+                }
+                for prog in REPLY_PROGS {
+                    if !ctx.begin(&format!("{} / RUN / reply {:?}", prog, reply)) {
+                        continue;
+                    }
+                    let r = guard(|| {
+                        let mut s = Session::with(5000, 10);
+                        s.enter(prog);
+                        s.replies.push_back(reply.clone());
+                        s.keys.push_back(reply.clone());
+                        let mut st = s.enter("RUN");
+                        if st == Status::AwaitInput {
+                            // the reply was refused or more is wanted: one interrupt must get back to the prompt
+                            s.rt.interrupt();
+                            st = s.drain();
+                        }
+                        let _ = st;
+                        s.enter("K$=INKEY$:PRINT LEN(K$)");
+                        s.take();
+                        s.enter("PRINT 1");
+                        crate::driver::render(&s.take())
+                    });
+                    match r {
+                        Err(pn) => ctx.violation(&panic_class(&pn), pn),
+                        Ok(t) => {
+                            ctx.nontrivial(hash64(&(prog, &t, reply.len())));
+                            if !t.contains(" 1 \n") {
+                                ctx.violation("wedged/does-not-accept-next-line", t);
+                            }
+                        }
+                    }
+                }
+            }
+        }
+        ctx.sample();
+    }
+}
+
+/// TAB, SPC, the comma zones and POS at every interesting column of a long
+/// output line (up to 1000 characters without a newline)
+struct Columns;
+
+const COLS: [usize; 24] = [0, 1, 13, 14, 15, 27, 28, 79, 80, 81, 90, 159, 160, 161, 254, 255, 256, 257, 300, 511, 512, 513, 1000, 1024];
+
+impl Sweep for Columns {
+    fn name(&self) -> String {
+        "long-output-lines".into()
+    }
+    fn shards(&self) -> usize {
+        COLS.len()
+    }
+    fn crash_is_verdict(&self) -> bool {
+        true
+    }
+    fn run_shard(&self, shard: usize, ctx: &mut Ctx) {
+        let col = COLS[shard];
+        for ch in ["x", "é"] {
+            let mut parts = vec![];
+            let mut left = col;
+            while left > 0 {
+                let n = left.min(255);
+                parts.push(format!("STRING$({},\"{}\");", n, ch));
+                left -= n;
+            }
+            let lead = parts.join("");
+            let mut ops: Vec<String> = vec![",\"y\"".into(), "POS(0)".into(), ",,\"y\"".into()];
+            for n in [-1i32, 0, 1, 2, 14, 15, 30, 79, 80, 81, 90, 160, 255, 256, 257, 1000, 32767] {
+                ops.push(format!("TAB({});\"y\"", n));
+                ops.push(format!("SPC({});\"y\"", n));
+            }
+            for op in &ops {
+                let line = format!("PRINT {}{}", lead, op);
+                let stored = format!("10 {}:PRINT POS(0)", line);
+                for lines in [vec![line.as_str()], vec![stored.as_str(), "RUN"]] {
+                    if !ctx.begin(&format!("column {} of {:?}: {} [{}]", col, ch, op, lines.len())) {
+                        continue;
+                    }
+                    ctx.nontrivial(hash64(&(col, ch, op)));
+                    if let Err((sig, detail)) = survive(&lines) {
+                        ctx.violation(&sig, detail);
+                    }
+                }
+            }
+        }
+        ctx.sample();
+    }
+}
+
 /// two stored corpus lines (also with multi-byte text) followed by every
 /// program-level command, then a second command
 struct Sessions {
@@ -794,6 +911,8 @@ impl Check for C03 {
             Box::new(TokenSeqs { k: tier.pick(2, 3) }),
             Box::new(Mutants { pairs: tier == Tier::Thorough }),
             Box::new(Sessions { all: tier == Tier::Thorough }),
+            Box::new(Replies { n: tier.pick(4, 5) }),
+            Box::new(Columns),
             Box::new(SpaceSweep { model: protocol(tier.pick(6, 8)) }),
             Box::new(SpaceSweep { model: protocol_from(tier.pick(6, 8), true) }),
         ];
@@ -803,8 +922,8 @@ impl Check for C03 {
     fn meta(&self, tier: Tier) -> Meta {
         Meta {
             bound: match tier {
-                Tier::Quick => "every string of length <=3 over the 41-symbol lexical alphabet and of length <=4 over its 20-symbol numeric core, every sequence of <=2 tokens from 105 tokens, every single-token mutant (delete, swap, replace by / insert each of the 105 tokens) of a 47-line corpus, 31 nesting / repetition shapes at lengths around 255 and the 1024-byte limit (also as INPUT replies and INKEY$ keys) - each as a direct line, a stored line, and a stored line followed by RUN; and the UI protocol state machine (18 lines, 3 replies, 2 keys, execute(1|7|5000), interrupt, snapshot take/drop, load ok/fail) to depth 5".into(),
-                Tier::Thorough => "as quick with strings to length 4 (full alphabet) / 6 (numeric core), token sequences to length 3, pairs of mutations on corpus lines of <=14 tokens, protocol depth 7".into(),
+                Tier::Quick => "every string of length <=4 over the 41-symbol lexical alphabet and of length <=5 over its 20-symbol numeric core, every sequence of <=2 tokens from 105 tokens, every single-token mutant (delete, swap, replace by / insert each of the 105 tokens) of a 47-line corpus, 31 nesting / repetition shapes at lengths around 255 and the 1024-byte limit (also as INPUT replies and INKEY$ keys) - each as a direct line, a stored line, and a stored line followed by RUN; two stored corpus lines followed by each of 23 commands and a follow-up command; every reply of <=4 symbols over {a, é, 日, comma, quote, blank, 1, -, ., &} to 5 INPUT statements with 1..3 variables and as an INKEY$ key; TAB / SPC / comma / POS at 24 columns 0..1024 of an unterminated output line (1- and 2-byte characters, 37 operations, direct and stored); and the UI protocol state machine (21 lines, replies, keys, execute(1|7|5000|until it asks), interrupt - also while a key or a reply is awaited -, snapshot take/drop, load ok/fail) to depth 6 from the empty interpreter and from a stored program".into(),
+                Tier::Thorough => "as quick with strings to length 5 (full alphabet) / 7 (numeric core), token sequences to length 3, pairs of mutations on corpus lines of <=14 tokens, every follow-up command in the stored-line sessions, replies to length 5, protocol depth 8".into(),
             },
             rule: "a case is one entered text in one of three modes (or one protocol transition); verdict: no panic, every call returns (watchdog), and afterwards - after at most one interrupt - PRINT 1 prints ' 1 '; distinct_nontrivial counts shards / protocol states".into(),
             states_note: "states = distinct (full-state digest, protocol wait state, live snapshots) of the protocol search; transitions = protocol actions executed plus entered texts".into(),
